@@ -9,6 +9,7 @@ ASSUMPTIONS = [
 ]
 
 CLAUSES = {
+    "Cl_ConversionTotal": "a conversion of a valid composition never raises",
     "Step_Conv": "recorded conversion equals the specification's formula",
     "Cl_RoundTrip": "mass->mole->mass (and reverse) returns the original value",
     "Cl_FixesEnds": "0 and 1 are fixed",
